@@ -146,7 +146,9 @@ SETTING_ENTRIES = {
     "sliding.window_length": False, "sliding.step_length": False, "sliding.initial_window": True,
     "expanding.initial_window": False, "expanding.step_length": False,
     "single.window_length": True, "cutoff.window_length": False,
-    "naive_mean.window_length": True, "naive_mean.sp": True, "naive_drift.window_length": True,
+    # naive_mean.sp: NaiveForecaster documents `sp : int`; None only ever got past fit because
+    # check_sp lets it through (predict then failed) - it is a wrongly-typed period here
+    "naive_mean.window_length": True, "naive_mean.sp": False, "naive_drift.window_length": True,
     "reduce.window_length": False, "get_cutoffs.step_length": True,
 }
 
@@ -762,10 +764,10 @@ def _expect(case):
                 return False
             if wl[0] == "int":
                 return not (sp[1] != 1 and wl[1] < sp[1]) and wl[1] <= n
-            return True
+            return not (sp[1] != 1 and n < sp[1])      # default window: series shorter than a season
         if wl[0] == "int":
             return wl[1] != 1 and wl[1] <= n
-        return True
+        return n != 1                                   # drift: no line through one observation
     return None
 
 
